@@ -17,13 +17,13 @@ RULE = (
     "a target at/after the instant; later rounds re-use the drained scheduler (restart). The scheduler call runs in a "
     "daemon thread joined with a 10 s watchdog. Oracle: the call returns (else FAIL 'hang'), raises nothing, and every "
     "action due at or before the target (all of them for start()) ran exactly once per (re)scheduling, cancelled ones "
-    "never, none more often. The clock value is not judged (MAX_SPINNING=100 legitimately nudges it). Non-trivial: more "
+    "never, none more often. Some actions additionally call advance_to(now+k) / advance_by(k) (k>0) / start() on the scheduler that is running them (check 'nested_drive' enumerates this for every kind x drain with further due actions after the nested target): the running scheduler ignores such calls (guard in advance_to/start), so the same oracle applies and the clock must not move across the nested call. The clock value is otherwise not judged (MAX_SPINNING=100 legitimately nudges it). Non-trivial: more "
     "than 100 dequeues at one instant in some round. Distinct = distinct case JSON."
 )
 ASSUMPTIONS = [
     "a hang is decided by a 10 s wall-clock watchdog around work that takes milliseconds (0.5 s once a hang was already seen in the same process, so that shrinking a hanging case stays affordable)",
     "advance_to/advance_by targets are strictly after the current clock (advance to 'now' is a documented no-op)",
-    "actions only re-schedule through scheduler.schedule(); they do not raise, stop or sleep",
+    "actions only re-schedule through scheduler.schedule() and make re-entrant advance_to/advance_by (target after now) / start() calls, which the running scheduler ignores; they do not raise, stop or sleep",
 ]
 
 MAX_SPINNING = 100
@@ -36,7 +36,7 @@ def _run(case):
     nontrivial = False
     counts, want, due = {}, {}, {}
 
-    def new_action(at, runs, resched):
+    def new_action(at, runs, resched, nested=None):
         aid = len(counts)
         counts[aid] = 0
         want[aid] = runs
@@ -45,11 +45,26 @@ def _run(case):
 
         def action(scheduler, state=None):
             counts[aid] += 1
+            if nested is not None and counts[aid] == 1:
+                # re-entrant drive call on the running scheduler, target after 'now': documented-by-guard no-op
+                # (virtualtimescheduler.py: `if self.now == dt or self._is_enabled: return`; start(): `if self._is_enabled: return`)
+                how, k, nform = nested
+                before = scheduler.clock
+                if how == "to":
+                    scheduler.advance_to(enc_abs(kind, clock_of(kind, scheduler) + k, nform))
+                elif how == "by":
+                    scheduler.advance_by(enc_rel(kind, k, nform))
+                else:
+                    scheduler.start()
+                if scheduler.clock != before:
+                    nested_moved.append([aid, str(before), str(scheduler.clock)])
             if left[0] > 0:
                 left[0] -= 1
                 scheduler.schedule(action)  # bounded self-rescheduling at the current time
 
         return action
+
+    nested_moved = []
 
     for ri, rnd in enumerate(case["rounds"]):
         n, where, form, d = rnd["n"], rnd["where"], rnd["form"], rnd["d"]
@@ -59,10 +74,14 @@ def _run(case):
             return FAIL(f"clock-not-on-grid|{kind}", f"clock {now} case={case}", classes=cls)
         at = now if where == "now" else now + d
         at_instant = 0
+        n_nested = 0
         for i in range(n):
             cancelled = bool(cancel_every and i % cancel_every == cancel_every - 1)
             r = times if (every and i % every == 0 and not cancelled) else 0
-            action = new_action(at, 0 if cancelled else 1 + r, r)
+            nest = rnd.get("nested") if (rnd.get("nested_every") and i % rnd["nested_every"] == 0 and not cancelled) else None
+            if nest is not None:
+                n_nested += 1
+            action = new_action(at, 0 if cancelled else 1 + r, r, nest)
             if where == "now":
                 disp = sched.schedule(action)
             elif where == "rel":
@@ -95,6 +114,12 @@ def _run(case):
             cls.append("self-rescheduling")
         if cancel_every and n >= cancel_every:
             cls.append("some-cancelled")
+        if n_nested:
+            cls.append(f"nested-{rnd['nested'][0]}-inside-{what}")
+            later_after_nested = rnd["later"] and rnd["gap"] > (rnd["nested"][1] if rnd["nested"][0] != "start" else 0) and (target is None or at + rnd["gap"] <= target)
+            if later_after_nested:
+                cls.append("due-action-after-nested-target")
+                nontrivial = True
         status, val = guarded(call)
         if status == "hang":
             return FAIL(f"hang|{kind}.{what}", f"{what}() did not return within the watchdog; round {ri} of case={case}", classes=cls)
@@ -102,6 +127,8 @@ def _run(case):
             if not isinstance(val, Exception):
                 raise val
             return escaped(val, f"{kind}.{what}", f"round {ri} of case={case}", cls)
+        if nested_moved:
+            return FAIL(f"nested-drive-call-moved-clock|{kind}.{what}", f"[action, clock before, after]={nested_moved[:3]} round {ri} case={case}", classes=cls)
         for a in counts:
             c, w = counts[a], want[a]
             if c > w:
@@ -146,6 +173,12 @@ def _round():
                 "later": st.integers(0, 3),
                 "gap": st.integers(1, 8),
                 "run": run,
+                "nested_every": st.sampled_from([0, 0, 1, 2, 9]),
+                "nested": st.one_of(
+                    st.tuples(st.just("to"), st.integers(1, 5), st.sampled_from(["num", "int", "dt"])),
+                    st.tuples(st.just("by"), st.integers(1, 5), st.sampled_from(["num", "int", "td"])),
+                    st.tuples(st.just("start"), st.just(0), st.none()),
+                ).map(list),
             }
         )
 
@@ -184,9 +217,30 @@ def _enum(tier):
                         yield {"kind": kind, "init": init, "rounds": rounds}
 
 
+def _enum_nested(tier):
+    """Actions that re-entrantly call advance_to / advance_by / start on the scheduler running them (targets after
+    'now'), with further due actions after the nested target, for every scheduler kind and way of draining."""
+    nesteds = [["to", 1, "dt"], ["to", 2, "num"], ["by", 1, "td"], ["by", 2, "num"], ["start", 0, None]]
+    wheres = [("now", None), ("rel", "td"), ("abs", "dt"), ("abs", "num")]
+    runs = [["start"], ["advance_to", 6, "dt"], ["advance_to", 5, "num"], ["advance_by", 6, "td"]]
+    for kind, init in (("hist", 0), ("hist", 86_400_000), ("vts", 0), ("test", 0)):
+        for n in (1, 3, 101):
+            for nested in nesteds:
+                for every in (1, 2):
+                    for wi, (where, form) in enumerate(wheres):
+                        for ri, run in enumerate(runs):
+                            rnd = {
+                                "n": n, "where": where, "form": form, "d": wi % 3, "resched_every": 0 if (wi + ri) % 2 else 2, "resched_times": 1,
+                                "cancel_every": 0, "later": 2, "gap": 3 + (ri % 2), "run": run, "nested_every": every, "nested": nested,
+                            }  # fmt: skip
+                            rounds = [rnd] if (wi + ri) % 3 else [rnd, dict(rnd, n=2, run=["start"])]
+                            yield {"kind": kind, "init": init, "rounds": rounds}
+
+
 def checks(tier):
     return [
         Check("threshold", _run, cases=_enum, shards={"quick": 4, "thorough": 16}),
+        Check("nested_drive", _run, cases=_enum_nested, shards={"quick": 4, "thorough": 16}),
         Check(
             "finish",
             _run,
